@@ -30,9 +30,14 @@
 //   - after the further fault-free cycle the multi-tier query sees each file / each row exactly once.
 //
 // Visibility is taken from the real multi-tier read expression (QueryHandler.buildMultiTierReadParquet via
-// buildReadParquetExprForMeasurement and via the whole-statement transform) executed in a real DuckDB
-// (database.New, sandboxed like production): file level = DuckDB glob() over exactly the path list of the
-// expression, row level = the transformed statement itself (parquet layouts).
+// buildReadParquetExprForMeasurement and via the whole-statement transform getTransformedSQL) executed in a
+// real DuckDB (database.New, sandboxed like production): file level = DuckDB glob() over exactly the path
+// literals of the transformed statement, row level = the transformed statement itself (parquet layouts).
+// Two observers ask: (1) a freshly constructed Manager + QueryHandler over the directories and the SQLite file
+// (what a restarted arc sees; the only possible observer of a crash state), and (2) the long-lived
+// QueryHandler of the very process that ran the cycle, wired like cmd/arc wires it (SetTieringManager(the
+// migrating Manager)), which served the same statement text before the cycle and repeats it after the cycle
+// has finished — so the handler's and the metadata store's caches are part of what is judged.
 package main
 
 import (
@@ -219,9 +224,15 @@ func sqlGate(q string, args []driver.NamedValue) error {
 			}
 		}
 	}
+	p := gate.plan
+	if class == "CompleteMigration" { // carries no path: the n-th statement belongs to the n-th migrating file
+		if roles := gate.env.migratingRoles(); p.complete < len(roles) {
+			role = roles[p.complete]
+		}
+		p.complete++
+	}
 	idx := len(gate.log)
 	gate.log = append(gate.log, sqlEv{class, role})
-	p := gate.plan
 	if idx == p.CrashSQL {
 		gate.dead = true
 		gate.mu.Unlock()
@@ -232,13 +243,6 @@ func sqlGate(q string, args []driver.NamedValue) error {
 	want := map[string]string{"UpdateTier": "M", "RecordMigration": "I", "CompleteMigration": "C", "RecordFile": "S"}[class]
 	fail := false
 	if want != "" {
-		if class == "CompleteMigration" { // carries no path: the n-th statement belongs to the n-th migrating file
-			roles := gate.env.migratingRoles()
-			if p.complete < len(roles) {
-				role = roles[p.complete]
-			}
-			p.complete++
-		}
 		for i, s := range p.Sites {
 			if s.Kind == want && !p.fired[i] && s.Role == role {
 				p.fired[i] = true
@@ -285,7 +289,7 @@ func (c *gateConn) Exec(q string, args []driver.Value) (driver.Result, error) {
 	return c.SQLiteConn.Exec(q, args)
 }
 func (c *gateConn) BeginTx(ctx context.Context, o driver.TxOptions) (driver.Tx, error) {
-	ev.Unbound("the tier metadata store started a transaction; the C12 SQL gate models auto-commit statements only")
+	unbound("the tier metadata store started a transaction; the C12 SQL gate models auto-commit statements only")
 	return nil, nil
 }
 func (c *gateConn) Begin() (driver.Tx, error) {
@@ -510,9 +514,13 @@ func (e *env) migratingRoles() []string {
 
 var envSeq int
 
+// unbound / nondeterminism: exit 2 paths that first remove this process's scratch directory
+func unbound(what string)        { os.RemoveAll(scratch); ev.Unbound(what) }
+func nondeterminism(what string) { os.RemoveAll(scratch); ev.Nondeterminism(what) }
+
 func must(err error, what string) {
 	if err != nil {
-		ev.Unbound(what + ": " + err.Error())
+		unbound(what + ": " + err.Error())
 	}
 }
 
@@ -582,7 +590,7 @@ func newProc(e *env, wrapCold ...bool) *proc {
 	mgr, err := tiering.NewManager(&tiering.ManagerConfig{HotBackend: &faultBackend{hot, "hot"}, ColdBackend: coldB,
 		DB: db, Config: tierCfg(), LicenseClient: license.VerifTieringClient(), Logger: zerolog.Nop()})
 	if err != nil {
-		ev.Unbound("tiering.NewManager cannot be constructed: " + err.Error())
+		unbound("tiering.NewManager cannot be constructed: " + err.Error())
 	}
 	p := &proc{e: e, db: db, mgr: mgr}
 	if coldB == storage.Backend(cold) {
@@ -619,7 +627,7 @@ func (p *proc) cycle(pl *plan) cycleLog {
 	err := p.mgr.RunMigrationCycle(context.Background())
 	l := disarm()
 	if err != nil {
-		ev.Unbound("RunMigrationCycle returned an error: " + err.Error())
+		unbound("RunMigrationCycle returned an error: " + err.Error())
 	}
 	return l
 }
@@ -702,7 +710,7 @@ func observe(e *env) *obs {
 	expr := h.VerifC12ExprForMeasurement(ctx, dbName, meas, "SELECT * FROM "+meas, "FROM")
 	direct := h.VerifC12MultiTierExpr(dbName, meas, mgr.GetRouter().GetGlobPathsForQuery(dbName, meas), "FROM")
 	if expr != direct {
-		ev.Unbound(fmt.Sprintf("buildReadParquetExprForMeasurement does not route through buildMultiTierReadParquet: %q vs %q", expr, direct))
+		unbound(fmt.Sprintf("buildReadParquetExprForMeasurement does not route through buildMultiTierReadParquet: %q vs %q", expr, direct))
 	}
 	evalWith(h, e, o, expr)
 	return o
@@ -725,10 +733,10 @@ func evalWith(h *api.QueryHandler, e *env, o *obs, wantExpr string) {
 	defer func() { tObs += time.Since(tA) }()
 	tr := h.VerifC12TransformSQL(context.Background(), e2stmt(e), "")
 	if !strings.Contains(tr, "read_parquet(") && !strings.Contains(tr, "WHERE 1=0") {
-		ev.Unbound(fmt.Sprintf("the statement transform produced no read_parquet expression: %q", tr))
+		unbound(fmt.Sprintf("the statement transform produced no read_parquet expression: %q", tr))
 	}
 	if wantExpr != "" && !strings.Contains(tr, strings.TrimPrefix(wantExpr, "FROM ")) {
-		ev.Unbound(fmt.Sprintf("the statement transform of a fresh handler does not use the multi-tier expression: %q", tr))
+		unbound(fmt.Sprintf("the statement transform of a fresh handler does not use the multi-tier expression: %q", tr))
 	}
 	o.Expr = strings.ReplaceAll(tr[strings.Index(tr, " FROM ")+1:], e.dir, "")
 	var matched []string
@@ -737,7 +745,7 @@ func evalWith(h *api.QueryHandler, e *env, o *obs, wantExpr string) {
 		p := strings.ReplaceAll(m[1], "''", "'")
 		rows, err := duck.DB().Query("SELECT file FROM glob('" + strings.ReplaceAll(p, "'", "''") + "')")
 		if err != nil {
-			ev.Unbound("DuckDB glob(): " + err.Error())
+			unbound("DuckDB glob(): " + err.Error())
 		}
 		for rows.Next() {
 			var file string
@@ -841,6 +849,13 @@ func (j *judge) seen(f fileSpec, x *fileObs) string {
 
 func (j *judge) violate(oracle, phase, detail string, o *obs) {
 	j.bad++
+	// one root cause, one oracle kind: a stale read expression makes migrated rows unreadable — whether the
+	// statement then misses the rows or fails outright ("No files found") depends only on what else the stale
+	// globs still match
+	const stale = "long-running-handler(stale-read-expression):"
+	if oracle == stale+"rows-invisible" || oracle == stale+"multi-tier-query-fails" {
+		oracle = stale + "migrated-rows-unreadable"
+	}
 	f := append([]string{}, j.faults...)
 	cls := "after-recovery"
 	switch {
@@ -1024,7 +1039,7 @@ func runCase(run *ev.Run, l layout, kind string, plans []*plan, restartAfterErro
 			if golden != nil && i < len(golden) && golden[i] != nil && lg.Died {
 				g := golden[i]
 				if pl.CrashFS >= 0 && (pl.CrashFS >= len(lg.FS) || pl.CrashFS >= len(g.FS) || e.fsLabel(lg.FS[pl.CrashFS]) != relabel(g, pl.CrashFS)) {
-					ev.Nondeterminism(fmt.Sprintf("C12: replay of %s reached a different file-system call at the crash point", pl.Label))
+					nondeterminism(fmt.Sprintf("C12: replay of %s reached a different file-system call at the crash point", pl.Label))
 				}
 			}
 			p.close()
@@ -1302,7 +1317,7 @@ func main() {
 				runCase(run, jb.l, "crash+crash-in-recovery", []*plan{clonePlan(first), p2}, false, nil)
 			}
 		} else {
-			// the step error, then a crash at every later file-system call of that same cycle
+			// the step error combined with a crash before every file-system call of that faulty cycle
 			lg := res.logs[0]
 			for k := range lg.FS {
 				if run.TimeUp() {
@@ -1329,6 +1344,7 @@ func main() {
 	for k := range st.states {
 		counters["state:"+k] = 1
 	}
+	os.RemoveAll(scratch) // FinishShard exits the process: deferred clean-up would not run
 	run.FinishShard(counters, samples.List(), complete)
 }
 
@@ -1351,10 +1367,10 @@ func crashPlansFromLog(l layout, g *cycleLog) []*plan {
 	e := &env{lay: l, files: l.files()}
 	var ps []*plan
 	for k, op := range g.FS {
-		ps = append(ps, &plan{CrashFS: k, Torn: -1, CrashSQL: -1, FailFS: -1, Label: "crash-before=" + labelIn(l, op)})
+		ps = append(ps, &plan{CrashFS: k, Torn: -1, CrashSQL: -1, FailFS: -1, Label: "recovery-cycle-crash-before=" + labelIn(l, op)})
 	}
 	for jx, s := range g.SQL {
-		ps = append(ps, &plan{CrashFS: -1, Torn: -1, CrashSQL: jx, FailFS: -1, Label: "crash-before=" + e.sqlLabel(s)})
+		ps = append(ps, &plan{CrashFS: -1, Torn: -1, CrashSQL: jx, FailFS: -1, Label: "recovery-cycle-crash-before=" + e.sqlLabel(s)})
 	}
 	return ps
 }
@@ -1392,7 +1408,7 @@ func replay(run *ev.Run) {
 	var l layout
 	var oc, oh, two int
 	if _, err := fmt.Sscanf(strings.NewReplacer(",", " ", "=", " ").Replace(cd.Layout), "size %s cold-sibling %d hot-sibling %d second-migrating %d", &l.Size, &oc, &oh, &two); err != nil {
-		ev.Unbound("replay file: cannot parse layout " + cd.Layout)
+		unbound("replay file: cannot parse layout " + cd.Layout)
 	}
 	l.OtherCold, l.OtherHot, l.Two = oc == 1, oh == 1, two == 1
 	defer os.RemoveAll(scratch)
@@ -1416,7 +1432,7 @@ func makeTemplates() {
 		os.Remove(p)
 		q := fmt.Sprintf("COPY (SELECT (range + %d)::BIGINT AS id, (hash(range) %% 1000000007)::BIGINT AS v FROM range(%d)) TO '%s' (FORMAT PARQUET, COMPRESSION UNCOMPRESSED)", first, n, p)
 		if _, err := duck.DB().Exec(q); err != nil {
-			ev.Unbound("cannot write the parquet fixture: " + err.Error())
+			unbound("cannot write the parquet fixture: " + err.Error())
 		}
 		b, err := os.ReadFile(p)
 		must(err, "read fixture")
@@ -1430,7 +1446,7 @@ func makeTemplates() {
 			break
 		}
 		if n > 40000 {
-			ev.Unbound("cannot produce a 70 KB parquet fixture")
+			unbound("cannot produce a 70 KB parquet fixture")
 		}
 	}
 	tmpl.g, tmpl.c0, tmpl.h0 = gen(500000, 5), gen(1, 3), gen(101, 3)
@@ -1482,7 +1498,7 @@ func parent(run *ev.Run, thorough bool) {
 		b, _ := json.Marshal(v.Replay)
 		var rv rawViolation
 		if err := json.Unmarshal(b, &rv); err != nil {
-			ev.Unbound("cannot decode a shard violation: " + err.Error())
+			unbound("cannot decode a shard violation: " + err.Error())
 		}
 		items = append(items, item{rv, atoms(rv.Faults), counts[v.Signature], v.Desc})
 	}
@@ -1567,13 +1583,14 @@ func parent(run *ev.Run, thorough bool) {
 	}
 	run.Coverage["rule"] = "layouts: " + lay + ". Per layout the fault-free cycle is recorded through the vos shim (file-system calls of both LocalBackends) and the wrapping SQL driver (mutating statements of the tier metadata), then EVERY element of: {crash before each file-system call (each write also torn)} + {crash before each SQL statement} + {each file-system call returns an error} + {all subsets of size 1..2 of the step failures copy-read(start|mid), copy-write(start|mid), metadata-update, source-delete, rollback-delete, reconcile-delete, record-migration, complete-migration, scan-record-file}" +
 		map[bool]string{true: " + {second crash at every event of the recovery cycle} + {single step failure then crash before each file-system call} + {step failures followed by a restart}", false: ""}[thorough] +
-		" is executed on the real Manager, followed by restart (after a crash) and one further fault-free cycle. evaluations = executed cases; a case is distinct by construction (layout, fault tuple) and counted non-trivial when every injected crash point / failure was actually reached by the run"
+		" is executed on the real Manager, followed by restart (after a crash) and one further fault-free cycle. Every crash state, every state a finished faulty cycle leaves and every final state is judged through a freshly started Manager+QueryHandler; finished cycles are additionally judged through the long-lived QueryHandler of the process that ran them (it served the same statement before the cycle). evaluations = executed cases; a case is distinct by construction (layout, fault tuple) and counted non-trivial when every injected crash point / failure was actually reached by the run"
 	fmt.Printf("C12: %d cases (%d with every injected fault reached), %d crash states + %d finished faulty cycles judged, %d distinct observed states, %d transient double-visibility states, %d raw violation tuples -> %d classes\n",
 		counters["cases"], counters["reached"], counters["crash_states"], counters["faulty_cycles"], states, counters["transient_double"], len(raw), len(classes))
 	run.Assume("crash model: process crash between system calls (every completed file-system call and every committed SQLite statement is durable, nothing after the crash point reaches disk or database); SQLite's own atomic commit and power-loss reordering are trusted / not modelled")
 	run.Assume("the cold tier is a second storage.LocalBackend (S3/Azure are unreachable offline); the Migrator drives both tiers through the same storage.Backend interface")
 	run.Assume("steady state before the cycle: every file of the layout is registered in the tier metadata (as an earlier cycle's ScanAndRegisterFiles leaves it); MigrationMaxConcurrent=1 so that the event order is deterministic")
-	run.Assume("visibility is judged by a freshly constructed Manager + QueryHandler over the same directories and SQLite file (what a restarted arc sees); the 30 s tier cache of a long-running MetadataStore is not part of the oracle")
+	run.Assume("the long-lived handler observer is absent in cases that inject cold-side step failures (copy-write, rollback-delete): the cold backend is then a wrapper and storage.GetStoragePath needs the concrete *LocalBackend; those cases are judged by the fresh observer only")
+	run.Assume("the long-lived handler repeats its statement within milliseconds of the cycle; cache TTLs (60 s SQL transform cache, 30 s tier cache) are real wall-clock TTLs and are not advanced")
 	run.Assume("a 1-byte file is not valid parquet: for the 1-byte layouts visibility is the file list DuckDB's glob() returns for exactly the paths of the real multi-tier expression; for the parquet layouts the transformed statement is executed and rows are counted")
 	run.Finish()
 }
